@@ -456,6 +456,31 @@ func execEmu(c core.Case) []string {
 				t.note(cc)
 			}
 			ks, crash := m["crash"]
+			if fv, fail := m["fail"]; fail {
+				if crash || fv != "1" {
+					out = append(out, "bad-op")
+					continue
+				}
+				// the state file cannot be written during this call: its directory is moved away, so
+				// WriteFileAtomic's OpenFile fails and Save panics. A panic of the signer is the death
+				// of the process (restart from disk); any other answer means the process goes on.
+				off := dir + ".off"
+				if err := os.Rename(dir, off); err != nil {
+					panic(err)
+				}
+				r := rawSign(pv, q)
+				if err := os.Rename(off, dir); err != nil {
+					panic(err)
+				}
+				persistFails.Add(1)
+				if r.class == "panic" {
+					reload()
+				} else if r.class != "ok" && !strings.HasPrefix(r.class, "err-") {
+					persistFailSurvived.Add(1)
+				}
+				out = append(out, t.showResult(q, r))
+				continue
+			}
 			if !crash {
 				out = append(out, t.showResult(q, rawSign(pv, q)))
 				continue
@@ -521,7 +546,24 @@ func childMain(dir string) {
 				os.Stdout.WriteString("R bad-op - -\n")
 				continue
 			}
-			r := rawSign(pv, q)
+			var r rawResult
+			if m["fail"] == "1" {
+				// no new file descriptor can be opened during this call (EMFILE in WriteFileAtomic)
+				var old syscall.Rlimit
+				if err := syscall.Getrlimit(syscall.RLIMIT_NOFILE, &old); err != nil {
+					panic(err)
+				}
+				if err := syscall.Setrlimit(syscall.RLIMIT_NOFILE, &syscall.Rlimit{Cur: 0, Max: old.Max}); err != nil {
+					panic(err)
+				}
+				r = rawSign(pv, q)
+				syscall.Setrlimit(syscall.RLIMIT_NOFILE, &old)
+				if r.class == "panic" {
+					os.Exit(2) // nobody recovers a panic of the signer: the process is gone
+				}
+			} else {
+				r = rawSign(pv, q)
+			}
 			if m["hold"] == "1" {
 				// crash point "after Sign returned, before the answer reaches anything"
 				syscall.Kill(os.Getpid(), syscall.SIGKILL)
@@ -605,6 +647,7 @@ var (
 	calOK, straceFound                              bool
 	killsAimed, killsLanded, killsMissed, killsHeld atomic.Int64
 	killHist                                        sync.Map
+	persistFails, persistFailSurvived               atomic.Int64
 )
 
 func calibrate() {
@@ -735,10 +778,25 @@ func execKill(c core.Case) []string {
 				t.note(cc)
 			}
 			ks, crash := m["crash"]
+			fv, fail := m["fail"]
+			if fail && (crash || fv != "1") {
+				out = append(out, "bad-op")
+				continue
+			}
 			if !crash {
 				ensure()
 				ans, err := ch.ask(op)
 				a := strings.Fields(ans)
+				if fail {
+					persistFails.Add(1)
+				}
+				if fail && err != nil && ans == "" {
+					// the child died of the signer's panic (EMFILE while writing the state file)
+					out = append(out, "panic")
+					ch.kill()
+					ch = nil
+					continue
+				}
 				if err != nil || len(a) != 4 || a[0] != "R" {
 					out = append(out, "child-died:"+ans)
 					ch.kill()
@@ -1126,7 +1184,11 @@ func genCrashStorm(r *rand.Rand, kind string, n int, emit func(core.Case)) {
 					if r.Intn(3) == 0 {
 						b = genBid(r)
 					}
-					ops = append(ops, signOp(r, x, b, ts, "c")+fmt.Sprintf(" crash=%d", 1+r.Intn(5)))
+					if r.Intn(4) == 0 {
+						ops = append(ops, signOp(r, x, b, ts, "c")+" fail=1") // the state file cannot be written
+					} else {
+						ops = append(ops, signOp(r, x, b, ts, "c")+fmt.Sprintf(" crash=%d", 1+r.Intn(5)))
+					}
 					if r.Intn(3) == 0 {
 						ops = append(ops, "state")
 					}
@@ -1143,6 +1205,44 @@ func genCrashStorm(r *rand.Rand, kind string, n int, emit func(core.Case)) {
 			}
 		}
 		ops = append(ops, "state")
+		emit(core.Case{Kind: kind, Ops: ops})
+	}
+}
+
+// failed persistence followed by continued operation: the state file cannot be written during a
+// request; the caller retries (same block, maybe a new time) once or twice, possibly with another
+// failure; then the process restarts and the same height/round/step is asked for another block
+func genPersistFail(r *rand.Rand, kind string, n int, emit func(core.Case)) {
+	for c := 0; c < n; c++ {
+		var ops []string
+		x := hrs{int64(1 + r.Intn(2)), int64(r.Intn(2)), 1 + r.Intn(3)}
+		if r.Intn(2) == 0 { // something older is already on disk
+			ops = append(ops, signOp(r, hrs{x.h - 1, 0, 3}, genBid(r), 0, "c"))
+		}
+		for round := 0; round < 1+r.Intn(3); round++ {
+			bid, ts := genBid(r), int64(r.Intn(3))
+			ops = append(ops, signOp(r, x, bid, ts, "c")+" fail=1")
+			if r.Intn(3) == 0 {
+				ops = append(ops, "state")
+			}
+			for i := 0; i < 1+r.Intn(2); i++ { // retries
+				op := signOp(r, x, bid, ts+int64(r.Intn(2)), "c")
+				if r.Intn(4) == 0 {
+					op += " fail=1"
+				}
+				ops = append(ops, op)
+			}
+			if r.Intn(3) != 0 {
+				ops = append(ops, "crash")
+			}
+			other := genBid(r)
+			ops = append(ops, signOp(r, x, other, ts+1, "c"))
+			if r.Intn(2) == 0 {
+				ops = append(ops, signOp(r, x, bid, ts+2, "c"))
+			}
+			ops = append(ops, "state")
+			x = next(r, x)
+		}
 		emit(core.Case{Kind: kind, Ops: ops})
 	}
 }
@@ -1230,6 +1330,9 @@ func genMalformed(r *rand.Rand, n int, emit func(core.Case)) {
 		"sign kind=vote typ=1 h=1 r=0 pol=0 bid=-:0 ts=0 chain=c",
 		"sign kind=vote typ=1 h=1 r=0 pol=0 bid=-:0:- ts=0",
 		"sign kind=vote typ=1 h=1 r=0 pol=0 bid=-:0:- ts=0 chain=c crash=x",
+		"sign kind=vote typ=1 h=1 r=0 pol=0 bid=-:0:- ts=0 chain=c fail=2",
+		"sign kind=vote typ=1 h=1 r=0 pol=0 bid=-:0:- ts=0 chain=c fail=1 crash=2",
+		"sign kind=vote typ=1 h=2 r=0 pol=0 bid=-:0:- ts=0 chain=c fail=1",
 		"sign kind=vote typ=1 h=-5 r=0 pol=0 bid=-:0:- ts=0 chain=c",
 		"sign kind=vote typ=1 h=0 r=-1 pol=0 bid=-:0:- ts=0 chain=c",
 		"sign kind=vote typ=1 h=0 r=0 pol=0 bid=-:0:- ts=-7 chain=c",
@@ -1324,6 +1427,8 @@ func main() {
 			genCrashStorm(r, "crash-storm", n, emit)
 			genHostile(r, n/2, emit)
 			genMalformed(r, n/5, emit)
+			genPersistFail(r, "persist-fail", n/4, emit)
+			genPersistFail(r, "kill-persist-fail", nk/2, emit)
 			genCrashStorm(r, "kill-storm", nk, emit)
 			genWalk(r, "kill-walk", nk/2, 40, emit)
 		},
@@ -1344,7 +1449,7 @@ func main() {
 			}
 			return ok >= 1 && (ok+crashed) >= 2
 		},
-		Rule: "random walks over (height, round, step) with repeats, regressions, same-HRS re-requests for the same / another block, new timestamps, other chain ids, nil / malformed block ids; crash storms (up to 3 crashes per step at micro-steps 1..5, each followed by a re-request); hostile hand-written state files (sign bytes without signature, signature over other content, negative heights); malformed op lines. Kinds kill-*: the signer runs in a child process and every crash is a true SIGKILL injected by strace at the openat / write / renameat / unlinkat of WriteFileAtomic (or a self-kill right after Sign returns), followed by a restart from the directory. Kind node: a single-validator node (consensus.State, on-disk WAL, goleveldb, in-process kvstore, real FilePV behind a wrapper that journals+fsyncs every returned signature) runs in a child, is killed by strace at the n-th write / fsync / renameat / openat of some thread up to 3 times, optionally loses up to 60 bytes of the WAL head file, and is restarted; the union of the journals goes to the same oracle (timing dependent: the witness journal is saved next to the replay file). Non-trivial = at least one released signature and at least two released-or-crashed requests; distinct by hash of the op list",
+		Rule: "random walks over (height, round, step) with repeats, regressions, same-HRS re-requests for the same / another block, new timestamps, other chain ids, nil / malformed block ids; crash storms (up to 3 crashes per step at micro-steps 1..5, each followed by a re-request); requests during which the state file cannot be written (fail=1: directory moved away in-process, RLIMIT_NOFILE=0 in the child; a panic of the signer = process death and restart from disk, any other answer = the process goes on) followed by retries, a restart and a request for another block; hostile hand-written state files (sign bytes without signature, signature over other content, negative heights); malformed op lines. Kinds kill-*: the signer runs in a child process and every crash is a true SIGKILL injected by strace at the openat / write / renameat / unlinkat of WriteFileAtomic (or a self-kill right after Sign returns), followed by a restart from the directory. Kind node: a single-validator node (consensus.State, on-disk WAL, goleveldb, in-process kvstore, real FilePV behind a wrapper that journals+fsyncs every returned signature) runs in a child, is killed by strace at the n-th write / fsync / renameat / openat of some thread up to 3 times, optionally loses up to 60 bytes of the WAL head file, and is restarted; the union of the journals goes to the same oracle (timing dependent: the witness journal is saved next to the replay file). Non-trivial = at least one released signature and at least two released-or-crashed requests; distinct by hash of the op list",
 		Assumptions: []string{
 			"ed25519 signing is deterministic; the signature scheme is a parameter sigOf of the model, the driver instantiates it with the ideal scheme (a signature is the content it signs) and the harness maps real signatures to the content they verify for",
 			"rename(2) atomically replaces the state file and an O_SYNC write is durable when it returns (file-system hypotheses; the kill stream checks them against process death only, not power loss)",
@@ -1363,6 +1468,7 @@ func main() {
 				"node_incarnations":          nodeIncarnations.Load(), "node_incarnations_killed": nodeKilled.Load(), "node_kill_syscall_histogram": nh,
 				"node_final_reached_height": nodeReached.Load(), "node_final_stuck": nodeStuck.Load(), "node_final_stuck_without_wal_truncation": nodeStuckNoLoss.Load(), "node_final_start_failed": nodeStartFail.Load(),
 				"node_journal_entries": nodeJournalEntries.Load(), "node_journal_repeated_messages": nodeReused.Load(),
+				"persist_failure_ops": persistFails.Load(), "persist_failure_process_survived_with_other_answer": persistFailSurvived.Load(),
 				"true_kills_aimed": killsAimed.Load(), "true_kills_landed_in_persistence": killsLanded.Load(),
 				"true_kills_after_return_selfkill": killsHeld.Load(), "true_kills_missed_fallback_emulated": killsMissed.Load(),
 				"true_kill_syscall_histogram": kh, "strace_calibrated": calOK,
